@@ -96,6 +96,21 @@ def run(ctx):
             names = c_list([c_pos(N(x)) for x in eff])
             missing_expr = f"negb (match snd (collect_selected (res_state $res) {names}) with [] => true | _ => false end)"
             warned = any("Requested outputs not found" in w for w in obs["warnings"])
+            # oracle, straight from the property text: a selected DATA name that a completed run did not return was not produced
+            emit_names = {e for nn in g["nodes"] for e in gen.iface(nn)[1] if e.startswith("sig") or e == "done"}
+            if obs["status"] == "completed":
+                not_produced = [k for k in eff if k not in obs["values"] and k not in emit_names]
+                if not_produced and rc["on_missing"] == "error":
+                    msgs.append(f"on_missing='error': selected output(s) {not_produced} were not produced, yet the run returned quietly")
+                if not_produced and rc["on_missing"] == "warn" and not warned:
+                    msgs.append(f"on_missing='warn': selected output(s) {not_produced} were not produced and no warning was issued")
+            # the policy itself (Engine.select_outputs, theorem C16_on_missing) against what the caller observed, for completed runs
+            pol = {"ignore": "MIgnore", "warn": "MWarn", "error": "MError"}[rc["on_missing"]]
+            seen = 2 if missing_error(obs) else (1 if warned else 0)
+            if obs["status"] == "completed" or missing_error(obs):
+                batch.add(i, 108, "Nat.eqb",
+                          f"(if Nat.eqb (res_status $res) 0 then match select_outputs {pol} (res_state $res) {names} with "
+                          f"SelOk _ => 0 | SelWarn _ _ => 1 | SelError _ => 2 end else {seen})%nat", f"{seen}%nat")
             if rc["on_missing"] == "error":
                 raised = missing_error(obs)
                 if obs["status"] == "raised" and not raised:
